@@ -151,9 +151,12 @@ class BitCrcRegisterBase(AbstractBitCrcRegister):
         """
         See AbstractCrcRegister.digest
         """
+        register = self.register
         if self._config.reverse_output_bytes:
-            self.reverse()
-        return self.register ^ int2ba(
+            # reversed value is the result only, register keeps its state (digest twice, update after digest)
+            register = register.copy()
+            register.reverse()
+        return register ^ int2ba(
             self._config.final_xor_value, length=self._config.width_bits
         )
 
